@@ -26,7 +26,7 @@ def romOfName : String → Option RomType
   | _ => none
 
 /-- bus descriptor: `low`, `high`, or `user:` followed by `;`-separated map directives
-    `ident,lo,hi,mask,ram(0/1),mlo,mhi` (`mlo = -` when there is no mirror), applied in order to an empty bus. -/
+    `ident,lo,hi,mask,ram(0/1),mlo,mhi` (`mlo = -` when there is no mirror) or `u,ident` (`Bus.unmap`), applied in order to an empty bus. -/
 def busOfDesc (d : String) : Option BusCfg :=
   if d == "low" then some Gen.lowRomBus
   else if d == "high" then some Gen.highRomBus
@@ -38,6 +38,7 @@ def busOfDesc (d : String) : Option BusCfg :=
       | none => none
       | some b =>
         match p.splitOn "," with
+        | ["u", ident] => b.unmap ident
         | [ident, lo, hi, mask, ram, mlo, mhi] =>
           match lo.toNat?, hi.toNat?, mask.toNat? with
           | some lo, some hi, some mask =>
